@@ -588,6 +588,7 @@ fn run_one<S, F>(
     test: &F,
     want_samples: usize,
     known_sigs: &[String],
+    progress: &dyn Fn(&WorkerStats),
 ) -> WorkerStats
 where
     S: Strategy,
@@ -620,6 +621,12 @@ where
         if let Some(p) = &log_cases {
             // debugging aid: the case in flight survives an abort of the process
             let _ = std::fs::write(p, serde_json::to_string(&v).unwrap_or_default());
+        }
+        if !*failed.borrow() {
+            let st = stats.borrow();
+            if st.done_cases % 8 == 0 {
+                progress(&st);
+            }
         }
         let r = test(&v);
         if *failed.borrow() {
@@ -707,7 +714,12 @@ where
         Some(c) => (c.index as u64 + 1, c.total.max(1), c.restart as u64),
         None => (0, 1, 0),
     };
-    let per = ((cfg.cases as usize).div_ceil(child_total)).div_ceil(workers) as u32;
+    let already_done: usize = std::env::var("VERIF_CASES_DONE").ok().and_then(|s| s.parse().ok()).unwrap_or(0);
+    let per = ((cfg.cases as usize).div_ceil(child_total)).saturating_sub(already_done).div_ceil(workers) as u32;
+    // an isolated child persists its progress so that its counts survive a process-level death
+    let progress_base: Option<(String, crate::isolate::Partial)> = ctx.child.as_ref().map(|c| (format!("{}.progress", c.out), crate::isolate::snapshot(ctx)));
+    let progress_base = &progress_base;
+    let camp_name = cfg.name;
     let camp_hash = stable_hash(&cfg.name);
     let seed = ctx.seed;
     let want_samples = if ctx.samples.len() < 6 { 2 } else { 0 };
@@ -730,7 +742,26 @@ where
                         let mut restart = 0u32;
                         while remaining > 0 {
                             let sb = derive_seed(seed, &[camp_hash, w as u64, restart as u64, child_index, child_restart]);
-                            let st = run_one(sb, remaining, cfg.max_shrink_iters, strategy, test, want_samples, known_sigs);
+                            let done_before: u32 = out.iter().map(|s: &WorkerStats| s.done_cases).sum();
+                            let progress = |st: &WorkerStats| {
+                                if let Some((path, base)) = progress_base {
+                                    let mut p = base.clone();
+                                    p.evaluations += st.evaluations;
+                                    p.nontrivial.extend(st.nontrivial.iter().cloned());
+                                    for (l, n) in &st.labels {
+                                        *p.labels.entry(format!("{camp_name}:{l}")).or_default() += *n;
+                                    }
+                                    for (s, n) in &st.known_hits {
+                                        *p.known_hits.entry(s.clone()).or_default() += *n;
+                                    }
+                                    p.done_cases = done_before + st.done_cases;
+                                    let tmp = format!("{path}.tmp");
+                                    if std::fs::write(&tmp, serde_json::to_string(&p).unwrap_or_default()).is_ok() {
+                                        let _ = std::fs::rename(&tmp, path);
+                                    }
+                                }
+                            };
+                            let st = run_one(sb, remaining, cfg.max_shrink_iters, strategy, test, want_samples, known_sigs, &progress);
                             remaining = remaining.saturating_sub(st.done_cases.max(1));
                             let failed = st.failure.is_some();
                             out.push(st);
